@@ -72,8 +72,13 @@ func (mfr *MultiFileReader) Read(buf []byte) (written int, err error) {
 
 		for entry == nil {
 			if len(mfr.files) == 0 {
-				mfr.mpWriter.Close()
-				mfr.closed = true
+				// Write the closing boundary only once: a caller whose buffer
+				// is smaller than what is left comes back here until the
+				// internal buffer is drained.
+				if !mfr.closed {
+					mfr.mpWriter.Close()
+					mfr.closed = true
+				}
 				return mfr.buf.Read(buf)
 			}
 
